@@ -10,11 +10,15 @@ type referencer interface {
 // PropertyReference
 
 type propertyReference struct {
-	base    *object
-	runtime *runtime
-	name    string
-	at      at
-	strict  bool
+	base *object
+	// primitive is the base value when the reference was made on a primitive
+	// (base is then the wrapper created by ToObject); it is the this value of a
+	// call through the reference (ES5 11.2.3 step 6.a.i).
+	primitive Value
+	runtime   *runtime
+	name      string
+	at        at
+	strict    bool
 }
 
 func newPropertyReference(rt *runtime, base *object, name string, strict bool, atv at) *propertyReference {
